@@ -413,6 +413,9 @@ def replacement_table():
 
 
 _PATCHED = False
+# modules that only do concrete float work on C-computed data (complex -> float assignments etc.) and receive
+# symbolic values, if at all, through plain arithmetic on their results
+UNPATCHED = {"cardillo.rods.discretization.gauss"}
 
 
 def patch_cardillo(silence_print=True):
@@ -430,6 +433,8 @@ def patch_cardillo(silence_print=True):
     tab = replacement_table()
     for name, mod in list(sys.modules.items()):
         if mod is None or not (name == "cardillo" or name.startswith("cardillo.")):
+            continue
+        if name in UNPATCHED:
             continue
         for k, v in list(vars(mod).items()):
             ent = tab.get(id(v))
